@@ -24,7 +24,7 @@ for d in sys.argv[1:]:
         st = json.load(open(os.path.join(d, "seedtest_result.json")))
     except Exception:
         pass
-    sid = os.path.basename(d)
+    sid = os.path.basename(d) + os.environ.get("SEED_SUFFIX", "")
     dst = os.path.join(HERE, "seeded", sid)
     os.makedirs(dst, exist_ok=True)
     for f in os.listdir(d):
